@@ -50,6 +50,8 @@ def strategy(tier):
         st.tuples(st.just("batch"), ti, st.lists(op, min_size=1, max_size=6),
                   st.one_of(st.just(-1), st.just(-1), st.integers(0, 6))),
         st.tuples(st.just("reopen"), ti, li),
+        # the node store is migrated: every trie's public `db` attribute is pointed at a copy
+        st.tuples(st.just("migrate"), ti),
         st.tuples(st.just("snapwrite"), ti, li, op),
         st.tuples(st.just("snapbatch"), ti, li, st.lists(op, min_size=1, max_size=4)),
         # two batches open at the same time on the same trie object: A opened, B opened, B left
@@ -120,7 +122,10 @@ class World:
     def __init__(self, ntries, db=None, roots=None, models=None):
         self.db = AppendOnlyGuardDB(db or {})
         roots = roots or [BLANK_ROOT] * ntries
-        self.tries = [impl("construct", HexaryTrie, self.db, r) for r in roots]
+        # "non-pruning" is spelled False, None or 0 (any falsy value) / left at its default
+        spell = [{}, {"prune": False}, {"prune": None}, {"prune": 0}]
+        self.tries = [impl("construct", HexaryTrie, self.db, r, **spell[(i + len(roots)) % 4])
+                      for i, r in enumerate(roots)]
         self.models = [dict(m) for m in (models or [{} for _ in range(ntries)])]
 
     def clone(self):
@@ -179,6 +184,12 @@ def exec_step(w, step, ledger_roots, ledger, faulty):
             model.clear()
             model.update(bmodel)
             new.append((bytes(t.root_hash), dict(model)))
+    elif kind == "migrate":
+        new_db = AppendOnlyGuardDB(dict(w.db))
+        new_db.breaches = w.db.breaches
+        w.db = new_db
+        for tr in w.tries:
+            tr.db = new_db
     elif kind == "reopen":
         root = ledger_roots[step[2] % len(ledger_roots)]
         w.tries[i] = impl("construct", HexaryTrie, w.db, root)
